@@ -44,6 +44,9 @@ def run(prog, tier):
     check_chain_order(R, prog)
     check_tool_sibling(R, prog)
     check_output_options(R, prog)
+    from ._families import borrow as _borrow
+    from . import c15 as _c15
+    _borrow(R, P, "GRAPH-ARG", prog, _c15.check_save_last, floor=1)
     return R
 
 
@@ -432,4 +435,6 @@ def check_helper_schema(R, prog, helpers):
             if k not in want:
                 R.bad(F("HELPER-SCHEMA", build, "%s does something else: %s" % (ci.name, e.text()[:90]),
                         "not in the reviewed table: %s" % e.text()[:400], e.node))
-    R.floor("HELPER-SCHEMA", n, 60)
+    R.floor("HELPER-SCHEMA", n, len(helpers))
+    if len(helpers) < 15:
+        raise AnalysisError("only %d command line helpers found" % len(helpers))
